@@ -108,6 +108,27 @@ class ExecBase:
             return
         self.obligations.append(Obligation(f"{self.cur_key}::{name}", list(st.pc), goal, st, line, kind, info))
 
+    def define_lets(self, c, st: State, at: State, fi, where: str) -> None:
+        """introduce the contract's local abbreviations whose definition point is `where` ('entry' or 'loop<k>'):
+        a fresh function symbol plus its defining axiom over the state `at`"""
+        from .sym import vint as _vint
+
+        for lname, spec_ in c.lets.items():
+            lparam, ltype, ltext = spec_[0], spec_[1], spec_[2]
+            lwhere = spec_[3] if len(spec_) > 3 else "entry"
+            if lwhere != where:
+                continue
+            lth = parse_hint(ltype)
+            fn = z3.Function(f"let_{lname}", z3.IntSort(), V)
+            jv = fresh(lparam, z3.IntSort())
+            es = at.fork()
+            es.no_type_facts = True
+            es.pc = []
+            val = self.eval_spec(es, ltext, dict(at.locals, **{lparam: _vint(jv)}), fi, old=st.old)
+            body_ = fn(jv) == self.to_z(es, val)
+            st.assume(z3.ForAll([jv], z3.And(es.pc + [body_]) if es.pc else body_))
+            self.lets[lname] = (fn, lth)
+
     # ------------------------------------------------------------ feasibility
     def feasible(self, st: State, extra=None) -> bool:
         import time
